@@ -190,6 +190,21 @@ def run(prop, tier, seed):
     if batch:
         handle(V.conformance(TRACE, mkcfg, batch, K, name=f"{prop}-B{n}", wd=wd), "binding B (recorded trace)")
 
+    # ---------------------------------------------------------------- 4. really concurrent commits (C03 only)
+    if prop == "C03":
+        rounds = 400 if tier == "quick" else 6000
+        sp = os.path.join(wd, "stress.ndjson")
+        V.gv(["txstress", "--threads", 4, "--rounds", rounds, "--out", sp], timeout=1800)
+        fcfg = V.write_cfg(os.path.join(wd, "fcw.cfg"), postcondition="Accepted")
+        res = V.validate_trace(os.path.join(SPECDIR, "FcwHistory.tla"), fcfg, sp, name="C03-stress")
+        if not res["accepted"]:
+            rnd = V.read_ndjson(sp)[res["index"] - 1]
+            rep.violation(f"4 threads committing concurrently: round {res['index']} returned {json.dumps(rnd['txs'])} — two overlapping "
+                          "committed writers of one entity or duplicate commit epochs (FcwHistory.tla)", {"stress_round": rnd, "script": []}, tag="stress")
+        else:
+            total_events += rounds
+        rep.add(concurrent_commit_rounds=rounds)
+
     rep.add(traces_validated_against_impl=total_traces, events_validated=total_events,
             evaluations=total_traces, distinct_nontrivial=nontriv,
             rule=("distinct action scripts (observations stripped); non-trivial: " +
